@@ -1,11 +1,26 @@
 #!/bin/sh
-# Offline setup: vendored generic-array copy, lock file, native helper binaries.
+# Offline setup: vendored generic-array copy, lock file, native helper binaries, and
+# pre-built Kani target directories (one per worker slot) so that the first check does
+# not spend its time compiling the dependencies sixteen times.
 set -e
 export CARGO_NET_OFFLINE=true
 cd /verif
 sh vendor/mk_generic_array.sh
 [ -f kani/Cargo.lock ] || cp /repo/Cargo.lock kani/Cargo.lock
 mkdir -p .work/logs .work/replays evidence
-[ -f kani/src/replay_table.rs ] || echo 'pub const TABLE: &[(&str, fn())] = &[];' > kani/src/replay_table.rs
-(cd kani && cargo build --offline --release --bin modelcheck --target-dir /verif/.work/native >/dev/null 2>&1) || true
+python3 - <<'PY'
+import importlib.util, sys
+sys.argv = ["x"]
+spec = importlib.util.spec_from_file_location("run", "/verif/run.py")
+m = importlib.util.module_from_spec(spec); spec.loader.exec_module(m)
+hs, _ = m.discover(); m.write_replay_table(hs)
+PY
+(cd kani && cargo build --offline --release --bin modelcheck --bin replay --target-dir /verif/.work/native >/dev/null 2>&1) || true
+(cd kani && cargo build --offline --bin replay --target-dir /verif/.work/native >/dev/null 2>&1) || true
+if [ ! -d .work/t0/kani ]; then
+  (cd kani && cargo kani -Z stubbing -Z unstable-options --only-codegen --harness c05_encode::c05_generic_dna_l0 --exact --target-dir /verif/.work/t0 >/dev/null 2>&1) || true
+fi
+for i in 1 2 3 4 5 6 7 8 9 10 11 12 13 14 15; do
+  [ -d .work/t$i/kani ] || cp -a .work/t0 .work/t$i 2>/dev/null || true
+done
 echo setup ok
